@@ -3,6 +3,7 @@
 output must be identical on the clean and on the patched checkout) must leave the quick tier silent (exit 0, no VIOLATION line).
 usage: benign_matrix.py import <dir with B??/_benign/<id>/>   -- copy into /verif/benign, confirm each (equiv.py identical, 113 passed)
        benign_matrix.py run [ids...]                          -- run the owning property's check (plus ALSO[id]) on each, write benign/MATRIX.json
+                                                                 (BENIGN_TIER=thorough: the thorough tier, benign/MATRIX_thorough.json)
 Every change is applied in a scratch worktree of /repo's HEAD (QUARA_REPO points the check at it); /repo is never touched."""
 import json, os, shutil, subprocess, sys, time
 V = os.path.dirname(os.path.dirname(os.path.abspath(__file__)))
@@ -65,7 +66,8 @@ def do_import(src):
 
 def do_run(ids):
     ids = ids or sorted(d for d in os.listdir(B) if os.path.isdir(os.path.join(B, d)))
-    path = os.path.join(B, "MATRIX.json")
+    tier = os.environ.get("BENIGN_TIER", "quick")
+    path = os.path.join(B, "MATRIX.json" if tier == "quick" else f"MATRIX_{tier}.json")
     wt = worktree()
     env = dict(os.environ, VERIF_TASK_TIMEOUT=os.environ.get("VERIF_TASK_TIMEOUT", "900"), VERIF_EVIDENCE_DIR="/tmp/benign_evidence", QUARA_REPO=wt)
     try:
@@ -77,7 +79,7 @@ def do_run(ids):
             try:
                 for chk in [bid[:3].lower()] + ALSO.get(bid, []):
                     t0 = time.time()
-                    r = sh(PY, os.path.join(V, "checks", chk + ".py"), "--tier", "quick", cwd=V, env=env)
+                    r = sh(PY, os.path.join(V, "checks", chk + ".py"), "--tier", tier, cwd=V, env=env)
                     bad = [l.strip()[:300] for l in r.stdout.splitlines() if l.startswith("VIOLATION") or l.strip().startswith("obligation ") or "inconclusive]" in l]
                     row[chk] = {"exit": r.returncode, "lines": bad[:8], "summary": (r.stdout.strip().splitlines() or ["?"])[-1][:200], "seconds": round(time.time() - t0, 1)}
                     print(bid, chk, "exit", r.returncode, f"{time.time() - t0:.0f}s", flush=True)
